@@ -213,6 +213,27 @@ fn check_prefixes(src: &Src, step: u32, phase: u32, cx: &mut Ctx) -> Check {
                 Err(e) => vensure!(e.status == TINFLStatus::FailedCannotMakeProgress, "c04:prefix-vec-status", "decompress_to_vec on prefix {k}: {:?}", e.status),
             }
         }
+        // slice-iterator helper: the prefix followed by further slices (one of them empty) is "more
+        // input announced"; the prefix as the last non-empty slice is not
+        if k % 5 == phase as usize % 5 {
+            let rest = &data[k..];
+            let mid = rest.len() / 2;
+            let it = |sl: &[&[u8]]| -> Result<(Result<usize, TINFLStatus>, Vec<u8>), Violation> {
+                let mut out = vec![0u8; n + 1];
+                let r = guard(|| miniz_oxide::inflate::decompress_slice_iter_to_slice(&mut out, sl.iter().copied(), t.zlib, false)).map_err(|pm| Violation::new(panic_sig("slice_iter", &pm), format!("panic on prefix {k}: {pm}")))?;
+                Ok((r, out))
+            };
+            for (what, sl) in [("[prefix, empty, rest]", vec![pre, &[][..], rest]), ("[prefix, rest/2, empty, rest/2]", vec![pre, &rest[..mid], &[][..], &rest[mid..]]), ("[empty, prefix, empty, empty, rest]", vec![&[][..], pre, &[][..], &[][..], rest])] {
+                let (r, out) = it(&sl)?;
+                vensure!(r == Ok(n) && out[..n] == t.plain()[..], "c04:prefix-slice-iter", "decompress_slice_iter_to_slice over {what} with a {k}/{} byte prefix: {:?} (want Ok({n}))", data.len(), r);
+            }
+            for (what, sl) in [("[prefix]", vec![pre]), ("[prefix, empty]", vec![pre, &[][..]]), ("[prefix/2, empty, prefix/2]", vec![&pre[..k / 2], &[][..], &pre[k / 2..]])] {
+                let (r, _) = it(&sl)?;
+                vensure!(r == Err(TINFLStatus::FailedCannotMakeProgress), "c04:prefix-slice-iter-unannounced", "decompress_slice_iter_to_slice over {what} with a {k}/{} byte prefix and nothing after it: {:?} (want FailedCannotMakeProgress)", data.len(), r);
+            }
+            cx.evals(6);
+            cx.class("prefix:slice-iter-with-empty-slices");
+        }
         cx.evals(4);
         cx.sub_nontrivial(crate::oracle::sums::fnv64(pre) ^ 0x9e37);
         k += step;
